@@ -171,7 +171,8 @@ def run(ctx, res):
     chunk = 16
     done = 0
     for lo in range(0, len(items), chunk):
-        if time.time() - ctx['t0'] > budget and lo > 0:
+        # the first three chunks run whatever the clock says (the coverage floor of report.py must not depend on load)
+        if time.time() - ctx['t0'] > budget and lo >= 3 * chunk:
             break
         part = items[lo:lo + chunk]
         cases = [t2.Case(dumps[lo + j]['bash'], it[2], wordbreaks=it[3], probes=it[1]) for j, it in enumerate(part)]
